@@ -95,8 +95,16 @@ func BeginOutLine(o appdrv.BeginOut) string {
 }
 
 func (s *Sim) BeginWith(a *BeginArgs) bool {
+	pre := ""
+	if s.Obs != nil {
+		pre = s.N.Dump()
+	}
 	o := s.N.BeginBlock(a.H, a.T, a.Proposer, a.Votes, a.Evid)
 	s.add(&Rec{Kind: "begin", Line: BeginLine(a), Out: BeginOutLine(o), Begin: a, Note: o.Panic})
+	s.Cur = a
+	if s.Obs != nil && o.Panic == "" {
+		s.Obs.OnBegin(s, a, pre, s.N.Dump(), o)
+	}
 	return o.Panic == ""
 }
 
@@ -116,7 +124,14 @@ func TxOutLine(o appdrv.TxOut, decodable bool) string {
 func (s *Sim) Deliver(bz []byte) (appdrv.TxOut, *Rec) {
 	fields, tx := appdrv.DescribeTx(bz, s.N.ChainID)
 	var o appdrv.TxOut
+	pre := ""
+	if s.Obs != nil {
+		pre = s.N.Dump()
+	}
 	tr := s.N.TraceTx(func() { o = s.N.DeliverTx(bz) })
+	if s.Obs != nil && o.Panic == "" {
+		defer func() { s.Obs.OnDeliver(s, bz, pre, s.N.Dump(), o, tr) }()
+	}
 	evm := "-"
 	if tx != nil && len(tr.Events) > 0 {
 		st, fk := "ok", "-"
@@ -174,6 +189,10 @@ func fromHex(h string) []byte {
 // End runs EndBlock, feeds the updates to tmsim, and records them.
 func (s *Sim) End() bool {
 	h := s.Height + 1
+	pre := ""
+	if s.Obs != nil {
+		pre = s.N.Dump()
+	}
 	ups, p := s.N.EndBlock(h)
 	out := "vu=" + appdrv.ValUpsLine(ups)
 	if p != "" {
@@ -191,6 +210,10 @@ func (s *Sim) End() bool {
 	if _, ok := s.ValSets[h+1]; !ok {
 		s.ValSets[h+1] = s.valset(h + 1)
 	}
+	if s.Obs != nil {
+		s.Obs.OnEnd(s, pre, s.N.Dump(), ups)
+	}
+	s.Restarted = false
 	return true
 }
 
@@ -206,6 +229,9 @@ func (s *Sim) Commit() bool {
 	}
 	s.Height++
 	s.Dump()
+	if s.Obs != nil {
+		s.Obs.OnCommit(s, s.N.Dump(), hash)
+	}
 	return true
 }
 
@@ -224,5 +250,10 @@ func (s *Sim) Restart() error {
 	s.N = n
 	s.add(&Rec{Kind: "restart", Line: "restart", Out: out})
 	s.Dump()
+	s.Restarted = true
+	s.EverRestarted = true
+	if s.Obs != nil {
+		s.Obs.OnRestart(s, out == "ok")
+	}
 	return nil
 }
